@@ -123,6 +123,13 @@ def gen_module(rng, modname, with_async_gen=False):
     funcs.append({"qual": "gen_mixed", "call": "gen_mixed", "kind": "generator", "mk": PARAM_SHAPES[0][2], "exit": "gen", "params": ["a"]})
     for q in ("gen", "gen_ret", "gen_raise", "gen_delegate"):
         funcs.append({"qual": q, "call": q, "kind": "generator", "mk": PARAM_SHAPES[0][2], "exit": "gen", "params": ["a"]})
+    # what it yields depends on the VALUE of its argument, not on its type: calls with the same argument and return types
+    # and different yield types (rows of the store that differ in the yield column only)
+    src.append("def gen_byvalue(a):\n" + enter_line("gen_byvalue", ["a"]) +
+               "    yield _r.yielded(_t, (1, 'x', None, 2.5)[a % 4])\n    _r.ret(_t, None)\n\n")
+    for _ in range(2):
+        funcs.append({"qual": "gen_byvalue", "call": "gen_byvalue", "kind": "generator", "mk": lambda vals: ((vals.rng.randrange(8),), {}),
+                      "exit": "gen", "params": ["a"]})
     # coroutines
     src.append("async def coro(a, b=None):\n" + enter_line("coro", ["a", "b"]) +
                "    x = await _r.Suspend()\n    y = await _r.Suspend()\n    return _r.ret(_t, (a, x + y))\n\n")
